@@ -666,6 +666,7 @@ func (v *vc) execInstr(fr *frame, st *state, instr ssa.Instruction) bool {
 		fr.closures()[in] = in
 	case *ssa.Lookup:
 		v.lookup(fr, st, in)
+		v.noteGuardedLookup(fr, st, in)
 	case *ssa.MapUpdate:
 		if site := v.callSite(in); fr.top && fr.fc != nil && site != "" {
 			v.curBlock = in.Block()
